@@ -15,12 +15,12 @@ FilesG == {"m", "p", "q"}
 Imp == {<<>>, <<"m">>, <<"p">>, <<"q">>, <<"x">>, <<"p", "q">>, <<"q", "p">>, <<"p", "x">>, <<"m", "p">>}
 Graphs == [FilesG -> Imp]
 GName(g) == "m" \o JoinS(g["m"], "") \o "-p" \o JoinS(g["p"], "") \o "-q" \o JoinS(g["q"], "")
-FileText(g, f) == \* imports with unique aliases, one public function that calls into the imports, a top-level call in main
+FileText(g, f) == \* imports with unique aliases, a global, one public function reading it, top-level code in every file (import-time code in p and q)
   LET n == Len(g[f])
       imps == IF n = 0 THEN ""
               ELSE IF n = 1 THEN "import i1 \"" \o g[f][1] \o ".tsh\"\n"
               ELSE "import (\n\ti1 \"" \o g[f][1] \o ".tsh\"\n\ti2 \"" \o g[f][2] \o ".tsh\"\n)\n"
-  IN imps \o "func F" \o f \o "() int {\n\treturn 1\n}\n" \o (IF f = "m" THEN "print(Fm())\n" ELSE "")
+  IN imps \o "var g" \o f \o " = 1\n" \o "func F" \o f \o "() int {\n\treturn g" \o f \o "\n}\n" \o (IF f = "m" THEN "print(Fm())\n" ELSE "print(\"import " \o f \o "\")\n")
 GraphCases == {[id |-> "C13/graph/" \o GName(g), mode |-> "proto", text |-> "",
                 expect |-> (IF Links(g, "m") THEN "script" ELSE "error"),
                 cyclic |-> HasCycle(g, "m"), missing |-> HasMissing(g, "m"),
